@@ -50,4 +50,15 @@ def mutants(ctx):
                "            if( __tp->src->super.myrank ==\n                ((parsec_data_collection_t*)__tp->src)->rank_of((parsec_data_collection_t*)__tp->src,\n                                                                m, n) )\n                continue;\n            int vpid", queries=A),
         Mutant("operator_coordinates_swapped", MO, "    rc = __tp->op( es, src_data, dest_data, __tp->op_data, m, n );", "    rc = __tp->op( es, src_data, dest_data, __tp->op_data, n, m );", queries=["mapop_2x3_1vp_1c"]),
     ]
-CLAIMED = False
+CLAIMED = True
+MANIFEST = {
+ "engine": "cbmc-src",
+ "text": "PARTIAL (map_operator.c part only). Bounded model checking of the real hand-written task class: the real startup function, add_task_to_list, "
+         "iterate_successors (column chains + atomic next_n counter), release_deps, complete_hook, data_lookup and the body run against a symbolic ownership "
+         "predicate and symbolic VP table on 2x2 / 2x3 (thorough 3x2, 3x3) tile grids; the solver chooses which pending task runs next and how far the workers "
+         "progress while the startup function is still generating.  With one virtual process every local tile is visited exactly once, no remote tile is, the "
+         "operator gets the pointers and coordinates of its own tile, each ready ring holds one task and data-copy references are balanced.  With two virtual "
+         "processes tiles are visited twice or never: KNOWN-FINDING C22-mapop-multi-vp with a tested fix.",
+ "note": "apply / reduce JDF obligations are not covered by these queries; operation-level interleaving (a task is atomic); scheduler, mempool and collection are stubs.",
+ "technique": "CBMC bounded symbolic execution of the real C unit + SAT (cadical); symbolic ownership, VP table and schedule",
+}
